@@ -64,6 +64,9 @@ def check(ctx):
     # shared instances: a record with start/end dates in order needs the interrupted customer to be one in service, and each PS visit to start from a clean state
     from . import c12, c19
     c12.interrupt_in_service(ctx, P, family_views(P, "Node"), iters)
+    # shift-change and slot dates all come from the one cyclic generator (offset + boundary[i % n] + (i // n) * cycle): a second formula for some schedule
+    # kind (a cycle without the offset) produces a date in the past at the wrap-around (shared instance, C12)
+    c12.timetable(ctx, P)
     if "PSNode" in P.classes:
         c19.reproject(ctx, P, P.view("PSNode"))
     ctx.assume("distributions return non-negative samples (the property's own proviso; C10 checks the engine validates them)")
